@@ -89,4 +89,24 @@ theorem inflight_blame_condition_from_source (r : Verifier.Report) :
       Generated.verifyBlamesInFlight r.written.toNat r.expected.toNat = true :=
   Verifier.inflight_blame_eq_source r
 
+/-! ### the systematic blind spot, stated exactly (recorded observation, DESIGN §0.6)
+
+    `checksumLog` feeds Data and then Extensions to FNV-1a back to back, with no length or separator in between. Moving
+    bytes across that boundary changes both fields and no sum: not a chance collision of the 64-bit hash but an identity
+    of its input. Every other single- or multi-field difference changes `hashInput` (the fixed-width Index/Term/Type
+    prefix and the concatenation). -/
+
+theorem boundary_shift_undetected (s : UInt64) (l : Log) (d e : Bytes) (h : d ++ e = l.data ++ l.ext) :
+    Verifier.checksumLog s { l with data := d, ext := e } = Verifier.checksumLog s l := by
+  unfold Verifier.checksumLog Verifier.hashInput
+  simp only [List.append_assoc]
+  rw [h]
+
+/-- concretely: Data = "ab", Extensions = "c" and Data = "a", Extensions = "bc" have the same sum from every start -/
+example (s : UInt64) :
+    Verifier.checksumLog s { index := 7, term := 2, typ := 0, data := [0x61, 0x62], ext := [0x63], time := none } =
+    Verifier.checksumLog s { index := 7, term := 2, typ := 0, data := [0x61], ext := [0x62, 0x63], time := none } :=
+  boundary_shift_undetected s { index := 7, term := 2, typ := 0, data := [0x61], ext := [0x62, 0x63], time := none }
+    [0x61, 0x62] [0x63] rfl
+
 end RaftWal.C17
